@@ -231,7 +231,12 @@ func suiteC05Inline(env *Env, res *Result) {
 		}
 		kind := "plain"
 		var pfx, sfx string
-		if !wl && r.Chance(1, 3) {
+		// an include file that writes prefixes/suffixes but no entry of its own (all commented out)
+		noEntries := !wl && r.Chance(1, 7)
+		if noEntries {
+			lines = []string{"##! was: " + r.Pick([]string{"alpha", "a|b"}), r.Pick([]string{"", "  ", "##! x"})}
+		}
+		if !wl && (r.Chance(1, 3) || noEntries) {
 			pfx = simpleAffix(r, false)
 			lines = append([]string{"##!^ " + pfx}, lines...)
 			kind = "affix"
@@ -241,7 +246,10 @@ func suiteC05Inline(env *Env, res *Result) {
 			lines = append(lines, "##!$ "+sfx)
 			kind = "affix"
 		}
-		if r.Chance(1, 4) {
+		if noEntries {
+			kind += "+no-entries"
+		}
+		if !noEntries && r.Chance(1, 4) {
 			lines = append([]string{"##!> define incdef " + r.Pick([]string{"[0-9]+", "q", "(?:u|v)"})}, lines...)
 			lines = append(lines, "z{{incdef}}")
 			kind += "+owndef"
@@ -672,7 +680,7 @@ func suiteC07Defs(env *Env, res *Result) {
 		names := defNames[:nd]
 		vals := map[string]string{}
 		for j, nm := range names {
-			v := r.Pick([]string{"[a-z]+", "\\d{1,3}", "(?:p|q)", "w", "x{2}", "\\.", "[^\"]", "a|b"})
+			v := r.Pick([]string{"[a-z]+", "\\d{1,3}", "(?:p|q)", "w", "x{2}", "\\.", "[^\"]", "a|b", "x{{nope}}y", "{{nope}}"})
 			if j+1 < nd && r.Chance(1, 2) {
 				v = r.Pick([]string{"a", "", "(?:"}) + "{{" + names[j+1+r.Intn(nd-j-1)] + "}}" + r.Pick([]string{"", "b", "?"})
 				if strings.HasPrefix(v, "(?:") {
